@@ -355,7 +355,18 @@ def standin_roundtrip(tier, seed):
     used = [store, cirq.Duration(millis=2 ** 53 + 1), cirq.Duration(micros=2 ** 55 + 1), cirq.Duration(picos=2 ** 62 + 3)]  # (kept below the range of datetime.timedelta, which Duration hashes through)
     try:
         import cirq_google
-        used += [cirq_google.study.Metadata(unit="ns"), cirq_google.study.Metadata(label="l", is_const=True, unit="GHz")]
+        used += [cirq_google.study.Metadata(unit="ns"), cirq_google.study.Metadata(label="l", is_const=True, unit="GHz"), cirq_google.InternalGate("G", None, 1), cirq_google.InternalGate("G", "mod", 2, x=0.5)]
+        from cirq_google.api import v2 as _v2
+        snap = _v2.metrics_pb2.MetricsSnapshot(timestamp_ms=1562544000021)
+        mt = snap.metrics.add()
+        mt.name = "t1"
+        mt.targets.append("0_0")
+        mt.values.add().double_val = 1.5
+        cal = cirq_google.Calibration(snap)
+        cases += 1
+        cal_back = cirq.read_json(json_text=cirq.to_json(cal))
+        if cal_back.timestamp != cal.timestamp or dict(cal_back["t1"]) != dict(cal["t1"]) or cirq_google.Calibration(cal.to_proto()).timestamp != cal.timestamp:
+            fails.append(dict(args=dict(value=repr(cal), timestamp=cal.timestamp, timestamp_read_back=cal_back.timestamp), failed="roundtrip-value-differs", clause="a Calibration read back from JSON / from its own proto has a different timestamp or metrics"))
     except (ImportError, AttributeError):
         pass
     for v in used:
